@@ -26,7 +26,7 @@ EXPLANATION = ('End-to-end symbolic execution of segno.make on content of fixed 
                'QRCode.mode, ECI header present exactly when requested for a non-Latin-1 byte part in a QR symbol with the ISO number, '
                'level/mask/version in the symbol == reported. unsat = no content of that length and shape is altered.')
 BOUNDS = {'quick': 'content values unrestricted; lengths: 1..4 auto; per shape (Micro, versions 1-5 all levels, 7-M, 10-M) byte capacity and capacity-1; explicit '
-                   'numeric/alphanumeric/kanji/hanzi at capacity for M1-M4, 1-2; two-part contents (lengths 1..3) incl. same-mode merging; eci x 7 encodings; '
+                   'numeric/alphanumeric/kanji/hanzi at capacity for M1-M4, 1-2; two-part contents (lengths 1..3) incl. same-mode merging; eci x every encoding of the ECI table; several ECI headers in one symbol at the capacity boundary; '
                    'text through a codec stub (8 scripts); integers of 1..5 digits; requested mask always (automatic mask = C06)',
           'thorough': 'quick + versions 6-12 all levels, 14-Q, 20-H, 27-M, 40-H, 40-L at byte capacity; explicit modes at capacity for versions 1-6; three-part contents; all masks for versions <= 3'}
 OUTSIDE = ('content lengths other than the listed ones; automatic mask selection on symbolic data (C06 shows masks are data-independent XOR patterns); '
@@ -163,6 +163,16 @@ def cases(tier):
     # E: ECI
     for enc_name in ('utf-8', 'shift_jis', 'iso-8859-15', 'cp1252', 'cp437', 'latin1', 'utf-16-be'):
         add(f'eci:{enc_name}', [('b', 3)], 4, eci=True, encoding=enc_name, mode='byte', version=2, error='M', mask=4)
+    # every encoding of the ECI register table (ref/iso_tables.ECI) once: the designator in the symbol must be the ISO number
+    for enc_name in sorted(T.ECI):
+        if enc_name not in ('utf-8', 'shift_jis', 'iso-8859-15', 'cp1252', 'cp437', 'utf-16-be'):
+            add(f'eci-table:{enc_name}', [('b', 2)], 3, eci=True, encoding=enc_name, mode='byte', version=1, error='L', mask=2)
+    # several ECI headers in one symbol (byte / numeric / byte, the same non-default encoding twice) at the capacity boundary of 1-L (152 bits):
+    # 2 x (12 + 4 + 8 + 8 * 5) + (4 + 10 + 14) = 156 bits -> must become 2-L; every header that is written must have been counted
+    add('eci:parts:byte+numeric+byte:boundary', [('b', 5, {'mode': 'byte', 'enc': 'utf-8'}), ('d', 4), ('b', 5, {'mode': 'byte', 'enc': 'utf-8'})], 30,
+        eci=True, error='L', micro=False, boost_error=False, mask=3)
+    add('eci:parts:byte+numeric+byte:fits', [('b', 4, {'mode': 'byte', 'enc': 'utf-8'}), ('d', 4), ('b', 5, {'mode': 'byte', 'enc': 'utf-8'})], 30,
+        eci=True, error='L', micro=False, boost_error=False, mask=3)
     # ECI header at the capacity boundary (1-L holds 152 bits = 4 + 12 + 8 + 16 bytes): the header that is written must be the header
     # that was counted when the version was chosen - for canonical names and aliases alike
     for enc_name in ('latin1', 'utf-8', 'ISO-8859-1'):
